@@ -94,10 +94,10 @@ func newChain() *fakeChain {
 	return &fakeChain{prime: p}
 }
 
-func newHeader(ptn uint64) *types.WorkObject {
+func newHeader(ptn, number uint64) *types.WorkObject {
 	h := types.EmptyWorkObject(common.ZONE_CTX)
 	h.WorkObjectHeader().SetLocation(homeLoc)
-	h.WorkObjectHeader().SetNumber(new(big.Int).SetUint64(height))
+	h.WorkObjectHeader().SetNumber(new(big.Int).SetUint64(number))
 	h.WorkObjectHeader().SetDifficulty(big.NewInt(1_000_000_000_000))
 	h.WorkObjectHeader().SetPrimeTerminusNumber(new(big.Int).SetUint64(ptn))
 	h.WorkObjectHeader().SetScryptDiffAndCount(types.NewPowShareDiffAndCount(big.NewInt(1_000_000_000_000), big.NewInt(0), big.NewInt(0)))
@@ -307,6 +307,7 @@ type world struct {
 	Regime  regime
 	Index2  bool // indexAddressUtxos argument
 	Reuse   bool // discard by Reset()+reuse instead of a fresh batch
+	Split   int  // >0: the first Split txs form one block, the rest the next block (height+1)
 	Initial []model.Created
 	Txs     []*seqTx
 	keys    []*qiKey
@@ -634,6 +635,7 @@ var shapes = []string{
 	"wrong-key", "wrong-signer", "agg-wrong-member-key", "agg-wrong-member-signer", "foreign-owner", "locked",
 	"oversize-denom-in", "oversize-denom-out", "outputs-exceed-by-step", "outputs-exceed", "zero-fee", "no-inputs",
 	"conversion", "conversion-multi", "wrapping", "cross-zone", "quai-output-no-data", "odd-owner",
+	"conversion", "wrapping", // the fork-regime dependent shapes are featured twice per regime
 }
 
 // needsEarlier: shapes that refer to an earlier transaction of the sequence.
@@ -946,28 +948,44 @@ func newWorld(idx int, r *rand.Rand, keys []*qiKey, otherZ, quaiKey *qiKey, rg r
 				return
 			}
 		}
-		panic("harness: cannot generate a filler transaction")
+		g.add("no-inputs") // always possible
 	}
+	featIdx := -1
 	for len(g.txs) < n {
-		if len(g.txs) == pos {
+		if len(g.txs) == pos && featIdx < 0 {
 			ok := g.add(featured)
-			for try := 0; !ok && try < 4; try++ { // produce the prerequisite, then retry
+			for try := 0; !ok && try < 6; try++ { // produce the prerequisite, then retry
 				switch featured {
 				case "spend-output-of-rejected-tx":
 					g.add("dup-in-tx")
+				case "spend-created-twice":
+					g.add("valid")
+					g.add("spend-created")
 				default:
 					g.add("valid")
 				}
 				ok = g.add(featured)
 			}
 			if !ok {
-				panic("harness: cannot generate shape " + featured)
+				// not a verdict matter: the required coverage classes catch a shape that is never produced
+				featIdx = len(g.txs)
+				filler()
+				continue
 			}
+			featIdx = len(g.txs) - 1
 			continue
 		}
 		filler()
 	}
-	return &world{Index: idx, Regime: rg, Index2: idx%2 == 1, Reuse: idx%3 == 2, Initial: g.initial, Txs: g.txs, keys: append(append([]*qiKey{}, keys...), otherZ, quaiKey)}
+	split := 0
+	if len(g.txs) >= 2 && r.Intn(3) == 0 {
+		split = 1 + r.Intn(len(g.txs)-1)
+	}
+	// a second spend of an outpoint consumed earlier: half of the time the earlier spend is in the previous block
+	if (featured == "dup-across-txs" || featured == "replayed-tx" || featured == "spend-created-twice") && featIdx > 0 && r.Intn(2) == 0 {
+		split = featIdx
+	}
+	return &world{Index: idx, Regime: rg, Index2: idx%2 == 1, Reuse: idx%3 == 2, Split: split, Initial: g.initial, Txs: g.txs, keys: append(append([]*qiKey{}, keys...), otherZ, quaiKey)}
 }
 
 // ---------------------------------------------------------------- witness
@@ -1009,9 +1027,9 @@ func (w *world) witness(extra map[string]any) map[string]any {
 		keys = append(keys, map[string]any{"address": mon.Hex(k.addr[:]), "private_key": mon.Hex(k.priv.Serialize())})
 	}
 	out := map[string]any{"sequence": w.Index, "block_number": height, "prime_terminus_number": w.Regime.PTN, "regime": w.Regime.Name, "index_address_utxos": w.Index2,
-		"discard_by_reset_and_reuse": w.Reuse, "zone": "0-0", "chain_id": params.Blake3PowLocalChainConfig.ChainID.String(),
+		"discard_by_reset_and_reuse": w.Reuse, "txs_in_first_block": w.Split, "zone": "0-0", "chain_id": params.Blake3PowLocalChainConfig.ChainID.String(),
 		"initial_utxo_set": ledgerWit(w.Initial), "transactions": txs, "keys": keys,
-		"procedure": "write initial_utxo_set with rawdb.CreateUTXO; one batch, SetPending(true); core.ProcessQiTx(tx, checkSig=true, isFirstQiTx=(first of the batch), ...) per tx in order; a rejected tx is dropped and the remaining ones are re-run on a new batch; batch.Write(); scan the UTXO prefix"}
+		"procedure": "write initial_utxo_set with rawdb.CreateUTXO; one batch, SetPending(true); core.ProcessQiTx(tx, checkSig=true, isFirstQiTx=(first of the batch), ...) per tx in order; a rejected tx is dropped and the remaining ones of the block are re-run on a new batch; batch.Write(); scan the UTXO prefix; if txs_in_first_block > 0 the remaining txs form the next block (number+1) on a new batch"}
 	for k, v := range extra {
 		out[k] = v
 	}
@@ -1075,17 +1093,41 @@ func (rn *runner) run(b *backend, w *world) (res seqResult) {
 	for _, c := range w.Initial {
 		base.Mint(c.Out, c.Entry)
 	}
-	header := newHeader(w.Regime.PTN)
 	chainID := *params.Blake3PowLocalChainConfig.ChainID
 	signer := types.NewSigner(&chainID, homeLoc)
-	scaling := math.Log(float64(len(w.Initial)))
-	remaining := make([]int, len(w.Txs))
-	for i := range remaining {
-		remaining[i] = i
+	// the sequence is one block, or two consecutive blocks (w.Split txs in the first)
+	all := make([]int, len(w.Txs))
+	for i := range all {
+		all[i] = i
 	}
+	segments := [][]int{all}
+	if w.Split > 0 && w.Split < len(all) {
+		segments = [][]int{all[:w.Split], all[w.Split:]}
+	}
+	for si, seg := range segments {
+		var ok bool
+		if base, ok = rn.runBlock(b, w, &res, witness, base, seg, height+uint64(si), chainID, signer); !ok {
+			return
+		}
+	}
+	m.Eval(b.name+":sequence-committed", fmt.Sprint(w.Index))
+	return
+}
+
+// runBlock processes the transactions seg as one block at the given height on
+// top of the ledger base (which the database holds) and returns the ledger
+// after the block.
+func (rn *runner) runBlock(b *backend, w *world, resp *seqResult, witness func(map[string]any) map[string]any, base *model.UTXOLedger, seg []int, blockNumber uint64,
+	chainID big.Int, signer types.Signer) (after *model.UTXOLedger, ok bool) {
+	m := rn.m
+	res := resp
+	header := newHeader(w.Regime.PTN, blockNumber)
+	scaling := math.Log(float64(base.Len()))
+	remaining := append([]int{}, seg...)
+	baseSorted := base.Sorted()
 	var batch ethdb.Batch
-	for attempt := 0; attempt <= len(w.Txs); attempt++ {
-		res.Attempts = attempt + 1
+	for attempt := 0; attempt <= len(seg); attempt++ {
+		res.Attempts++
 		if batch == nil || !w.Reuse {
 			batch = b.db.NewBatch()
 		}
@@ -1111,9 +1153,9 @@ func (rn *runner) run(b *backend, w *world) (res seqResult) {
 				fee, etxs, _, err, _ = core.ProcessQiTx(st.tx, rn.chain, true, pos == 0, header, batch, b.db, gp, usedGas, signer, homeLoc, chainID, scaling, &etxR, &etxP, ucd, supplyAdded, supplyRemoved, w.Index2)
 			}) {
 				res.Aborted = "panic"
-				return
+				return nil, false
 			}
-			eff, reasons := led.Check(st.mtx, height)
+			eff, reasons := led.Check(st.mtx, blockNumber)
 			mv := "accept"
 			if len(reasons) > 0 {
 				mv = strings.Join(reasons, ",")
@@ -1121,8 +1163,14 @@ func (rn *runner) run(b *backend, w *world) (res seqResult) {
 			if err != nil {
 				res.Verdicts[i] = txVerdict{Decided: true, Accepted: false, Err: err.Error(), Model: mv}
 				m.Eval(b.name+":"+st.Shape+":rejected", fmt.Sprintf("%d/%d", w.Index, i))
+				rn.regimeEval(b, w, st, "rejected")
 				if len(reasons) == 0 {
 					rn.stats["rejected_by_code_only:"+st.Shape+": "+normErr(err.Error())]++
+				}
+				if blockNumber > height && st.Shape != "dup-in-tx" {
+					if _, r0 := base.Check(st.mtx, blockNumber); primary(r0) == model.RDoubleUse {
+						m.Eval(b.name+":double-spend-across-blocks:rejected", fmt.Sprintf("%d/%d", w.Index, i))
+					}
 				}
 				rejectedPos = pos
 				break
@@ -1152,7 +1200,7 @@ func (rn *runner) run(b *backend, w *world) (res seqResult) {
 				// still write the batch so the resulting database is part of the cross-backend comparison
 				batch.Write()
 				res.Final = scan(b.db)
-				return
+				return nil, false
 			}
 			// ---- ... with identical effects
 			rn.compareEffects(b, w, i, st, eff, fee, etxs, ucd.UtxosDeleted[nDel:], ucd.UtxosCreatedHashes[nCre:], led, witness)
@@ -1163,10 +1211,10 @@ func (rn *runner) run(b *backend, w *world) (res seqResult) {
 				batch.Reset()
 			}
 			// a discarded batch leaves the database as it was
-			if miss, unexp, diff := diffLedgers(w.Initial, scan(b.db)); len(miss)+len(unexp)+len(diff) > 0 {
+			if miss, unexp, diff := diffLedgers(baseSorted, scan(b.db)); len(miss)+len(unexp)+len(diff) > 0 {
 				m.Violation("discarded-batch-changed-database:"+b.name, fmt.Sprintf("missing %d, unexpected %d, differing %d entries after a batch that was never written", len(miss), len(unexp), len(diff)), witness(nil))
 				res.Aborted = "db changed"
-				return
+				return nil, false
 			}
 			remaining = append(append([]int{}, remaining[:rejectedPos]...), remaining[rejectedPos+1:]...)
 			continue
@@ -1175,11 +1223,12 @@ func (rn *runner) run(b *backend, w *world) (res seqResult) {
 		if err := batch.Write(); err != nil {
 			m.Violation("batch-write-failed:"+b.name, err.Error(), witness(nil))
 			res.Aborted = "write"
-			return
+			return nil, false
 		}
 		for _, i := range remaining {
 			res.Verdicts[i].Decided = true
 			m.Eval(b.name+":"+w.Txs[i].Shape+":accepted", fmt.Sprintf("%d/%d", w.Index, i))
+			rn.regimeEval(b, w, w.Txs[i], "accepted")
 		}
 		res.Final = scan(b.db)
 		want := led.Sorted()
@@ -1207,7 +1256,13 @@ func (rn *runner) run(b *backend, w *world) (res seqResult) {
 			}
 		}
 		for _, c := range unexp {
-			if _, was := base.Get(c.Out); was {
+			spentInSeq := false
+			for _, i := range remaining {
+				for _, in := range w.Txs[i].Ins {
+					spentInSeq = spentInSeq || in.Prev == c.Out
+				}
+			}
+			if _, was := base.Get(c.Out); was || spentInSeq {
 				report("spent-output-still-present", c)
 			} else {
 				report("unexpected-output", c)
@@ -1234,12 +1289,28 @@ func (rn *runner) run(b *backend, w *world) (res seqResult) {
 		if got := new(big.Int).Sub(dbTotal, base.Total()); got.Cmp(new(big.Int).Sub(supplyAdded, supplyRemoved)) != 0 && len(miss)+len(unexp)+len(diff) == 0 {
 			m.Violation("supply-counters-mismatch:db:"+b.name, fmt.Sprintf("database total changed by %s, counters say %s", got, new(big.Int).Sub(supplyAdded, supplyRemoved)), witness(nil))
 		}
-		m.Eval(b.name+":sequence-committed", fmt.Sprint(w.Index))
-		return
+		if blockNumber > height {
+			m.Eval(b.name+":second-block-committed", fmt.Sprint(w.Index))
+		}
+		return led, true
 	}
 	res.Aborted = "too many attempts"
 	m.Violation("harness-sequence-did-not-terminate:"+b.name, "", witness(nil))
-	return
+	return nil, false
+}
+
+// regimeEval records fork-regime coverage of the shapes whose processing
+// depends on the prime terminus number (once, on the first backend).
+func (rn *runner) regimeEval(b *backend, w *world, st *seqTx, verdict string) {
+	if b.name != "leveldb" {
+		return
+	}
+	switch st.Shape {
+	case "conversion", "conversion-multi":
+		rn.m.Eval("regime:"+w.Regime.Name+":conversion:"+verdict, "")
+	case "wrapping":
+		rn.m.Eval("regime:"+w.Regime.Name+":wrapping:"+verdict, "")
+	}
 }
 
 var reHex = regexp.MustCompile(`(0x)?[0-9a-fA-F]{8,}|\d+`)
@@ -1444,10 +1515,11 @@ func TestC01Ledger(t *testing.T) {
 	defer closeAll()
 	rn := &runner{m: m, chain: newChain(), stats: map[string]int64{}}
 	rgs := regimes()
-	n := m.N(168, 3360)
+	n := m.N(len(shapes)*len(rgs), 20*len(shapes)*len(rgs))
 	for idx := 0; idx < n; idx++ {
 		sr := rand.New(rand.NewSource(r.Int63()))
-		w := newWorld(idx, sr, keys, otherZ, quaiKey, rgs[idx%len(rgs)], shapes[idx%len(shapes)])
+		// every featured shape meets every regime once per len(shapes)*len(rgs) sequences
+		w := newWorld(idx, sr, keys, otherZ, quaiKey, rgs[(idx/len(shapes)+idx)%len(rgs)], shapes[idx%len(shapes)])
 		results := make([]seqResult, len(backends))
 		for bi, b := range backends {
 			results[bi] = rn.run(b, w)
@@ -1463,10 +1535,13 @@ func TestC01Ledger(t *testing.T) {
 				}
 				shape := shapeSig(w.Txs[i].Shape)
 				extra := map[string]any{"tx": i, "verdicts": map[string]any{backends[0].name: ref.Verdicts, b.name: got.Verdicts}}
+				// only the first difference of a sequence is reported: later ones follow from it
 				if a.Accepted != c.Accepted {
 					m.Violation("verdict-differs-from-"+backends[0].name+":"+b.name+":"+shape, fmt.Sprintf("tx %d (%s): %s accepted=%v (%s), %s accepted=%v (%s)", i, shape, backends[0].name, a.Accepted, a.Err, b.name, c.Accepted, c.Err), w.witness(extra))
+					break
 				} else if a.Err != c.Err {
 					m.Violation("reject-reason-differs-from-"+backends[0].name+":"+b.name+":"+shape, fmt.Sprintf("tx %d (%s): %s: %s; %s: %s", i, shape, backends[0].name, a.Err, b.name, c.Err), w.witness(extra))
+					break
 				}
 			}
 			if ref.Final != nil && got.Final != nil {
@@ -1494,7 +1569,15 @@ func TestC01Ledger(t *testing.T) {
 			b.name+":agg-wrong-member-key:rejected", b.name+":agg-wrong-member-signer:rejected", b.name+":foreign-owner:rejected", b.name+":locked:rejected",
 			b.name+":oversize-denom-in:rejected", b.name+":oversize-denom-out:rejected", b.name+":outputs-exceed-by-step:rejected", b.name+":outputs-exceed:rejected",
 			b.name+":lock-boundary:accepted", b.name+":cross-zone:accepted", b.name+":conversion:accepted", b.name+":conversion:rejected", b.name+":wrapping:accepted",
-			b.name+":sequence-committed")
+			b.name+":sequence-committed", b.name+":second-block-committed", b.name+":double-spend-across-blocks:rejected", b.name+":spend-created:accepted")
+	}
+	for _, rg := range rgs {
+		m.Need("regime:" + rg.Name + ":wrapping:accepted")
+		if strings.Contains(rg.Name, "hold") {
+			m.Need("regime:" + rg.Name + ":conversion:rejected")
+		} else {
+			m.Need("regime:" + rg.Name + ":conversion:accepted")
+		}
 	}
 	m.Floor(int64(n), 40)
 }
